@@ -215,6 +215,14 @@ class Evaluator:
                 if isinstance(v, tuple) and v[0] == 'ord':
                     return ('ord', MIRROR[v[1]])
                 return None
+            if n in ('then', 'then_with') and 'cmp::Ordering' in d and len(t[2]) == 2:
+                v = self.ev(t[2][0], depth + 1)
+                if isinstance(v, tuple) and v[0] == 'ord':
+                    if v[1] != EQ:
+                        return v
+                    w = self.ev(t[2][1], depth + 1) if n == 'then' else self._clo(t[2][1], None, depth)
+                    return w if isinstance(w, tuple) and w[0] == 'ord' else None
+                return None
             cv = self._ev_combinator(t, n, d, depth)
             if cv is not NotImplemented:
                 return cv
